@@ -135,7 +135,10 @@ def run_script(drv, bdir, ops, want_emu, keep=None, shim=None, tmpdir=False, pro
         open(sp, "w").write("\n".join(lines) + "\n")
         td = os.path.join(d, "ovni")
         env = {"OVNI_TRACEDIR": td}
-        if tmpdir == "alias":
+        if tmpdir == "same":
+            # OVNI_TMPDIR is spelled exactly like the trace directory, and neither exists yet
+            env["OVNI_TMPDIR"] = td
+        elif tmpdir == "alias":
             # the temporary directory IS the trace directory (here through a symbolic link)
             os.makedirs(td, exist_ok=True)
             os.symlink("ovni", os.path.join(d, "tmp"))
@@ -168,7 +171,7 @@ def run_script(drv, bdir, ops, want_emu, keep=None, shim=None, tmpdir=False, pro
         shutil.rmtree(d, ignore_errors=True)
 
 
-def run_mt(drv, bdir, ops_list, want_emu, tmpdir, ranked=False):
+def run_mt(drv, bdir, ops_list, want_emu, tmpdir, ranked=False, emu_nofile=None):
     """An n-thread program: thread k runs ops_list[k]; all threads free together (relocation
     from OVNI_TMPDIR when tmpdir).  Returns one result per thread (the emulator run, on the whole
     trace, is attached to the first)."""
@@ -205,7 +208,7 @@ def run_mt(drv, bdir, ops_list, want_emu, tmpdir, ranked=False):
             res.append({"execution": execution, "problems": problems, "emu": None, "script": lines,
                         "ops": ops_list[k], "mt": (k, n, tmpdir)})
         if want_emu and not anyabort and rc == 0:
-            res[0]["emu"] = emu.ovniemu(bdir, td, ("-l",), timeout=180)
+            res[0]["emu"] = emu.ovniemu(bdir, td, ("-l",), timeout=180, nofile=emu_nofile)
         return res
     finally:
         shutil.rmtree(d, ignore_errors=True)
@@ -488,7 +491,7 @@ def main(pid, tier):
         # (so the first flush can find very few bytes in the buffer); every seventh script uses a
         # 7-digit pid and tid
         return run_script(drv, bdir, ops, want_emu, shim=shim if k % 3 == 1 else None,
-                          tmpdir=("alias" if k % 13 == 6 else (k % 3 == 2 or k % 6 == 1)),
+                          tmpdir=("alias" if k % 13 == 6 else "same" if k % 13 == 12 else (k % 3 == 2 or k % 6 == 1)),
                           protocol=(pid != "C01" or k % 5 != 4),
                           ids=(1048579, 4194301) if k % 7 == 3 else (1000, 1000), stale=(k % 11 == 5))
 
@@ -521,6 +524,12 @@ def main(pid, tier):
     mtres = core.pmap(lambda g: run_mt(drv, bdir, g[0], want_emu, g[1], ranked=g[2]), groups, workers=max(2, core.NCPU // 3))
     for rs in mtres:
         results.extend(rs)
+    if want_emu:
+        # many threads: a process with 48 threads (48 streams), emulated with 40 file descriptors at most -
+        # the number of streams of a trace is not bounded by the descriptors the emulator may hold
+        many = run_mt(drv, bdir, [[] for _ in range(48)], True, False, emu_nofile=40)
+        results.extend(many)
+        ck.notes["scripts"]["threads_in_the_many_thread_program"] = 48
     ck.notes["scripts"]["three_thread_programs"] = {"programs": ngroups, "relocating_from_tmpdir": sum(1 for g in groups if g[1])}
     ck.phase('replay')
     executions = [r_["execution"] for r_ in results]
